@@ -17,7 +17,7 @@
    built-in defaults, at most MaxInt64); [cmd_ok bnd] = the arguments have their Go types,
    durations <= bnd, and CreateShardGroup timestamps >= MinInt64 + bnd. *)
 From Verif Require Import C06.Model C06.Eqb C06.Spec C06.Proofs C06.ProofsCreate.
-From Verif Require Import C07.Model C07.Spec C07.ProofsMarshal C07.ProofsWf C07.ProofsHeap C07.Proofs.
+From Verif Require Import C07.Model C07.Spec C07.ProofsMarshal C07.ProofsWf C07.ProofsHeap C07.ProofsSlice C07.Proofs.
 From VerifGen Require Import Consts.
 From Coq Require Import Lia.
 Open Scope N_scope.
@@ -27,8 +27,13 @@ Open Scope N_scope.
    lets through is a case of Apply's switch that asserts exactly that extension *)
 Theorem source_facts :
   c07_clone_copies_node_lists = true /\ c07_snapshot_clones = true /\ c07_validate_checks_ext = true /\
-  forallb (table_entry_ok c07_apply_ext) c07_validate_table = true.
-Proof. split; [reflexivity|]. split; [reflexivity|]. split; [reflexivity|]. exact tables_consistent. Qed.
+  forallb (table_entry_ok c07_apply_ext) c07_validate_table = true /\
+  (* every slice / map field of every struct reachable from Data is copied by its clone method *)
+  c07_clone_all_deep = true /\ forallb (fun b => b) c07_clone_fields_copied = true.
+Proof.
+  split; [reflexivity|]. split; [reflexivity|]. split; [reflexivity|]. split; [exact tables_consistent|].
+  split; reflexivity.
+Qed.
 Print Assumptions source_facts.
 
 (* ---------- snapshot fidelity ---------- *)
@@ -161,6 +166,19 @@ Proof.
 Qed.
 Print Assumptions snapshot_point_in_time.
 
+(* the same for every other slice a *Data reaches (Subscriptions, Users, RetentionPolicies,
+   ContinuousQueries, ShardGroups, Shards, Owners; any element type): whatever sequence of
+   append / remove-by-shifting / element assignments the FSM performs through a copy that has
+   its own array, the original reads what it read before.  Together with source_facts (all
+   twelve slice/map fields are copied) this is why the heap machine may keep them by value. *)
+Theorem cloned_slice_frozen :
+  forall (A : Type) (zero : A) (spare : nat -> nat) (h : list (list A)) (s0 : gslice) (ops : list gop),
+    (gs_addr s0 < List.length h)%nat ->
+    let r := fold_left (gs_step zero spare) ops (gs_clone true h s0) in
+    gs_read (fst r) s0 = gs_read h s0.
+Proof. intros A zero spare. exact (ProofsSlice.cloned_slice_frozen zero spare). Qed.
+Print Assumptions cloned_slice_frozen.
+
 (* ---------- accepted requests can be applied ---------- *)
 
 (* for EVERY byte string and any protobuf decoder: accepted by validateCommand => Apply does
@@ -214,6 +232,19 @@ Theorem shallow_clone_snapshot_refuted :
   map (hread (f_heap (fst r))) (snd r) <> taken_values false init_data evs.
 Proof. exact ProofsHeap.shallow_clone_snapshot_refuted. Qed.
 Print Assumptions shallow_clone_snapshot_refuted.
+
+(* fix b48b0da: RetentionPolicyInfo.clone shared Subscriptions with the value it copied.
+   DropSubscription of a non-last subscription shifts the shared array; after the last one was
+   dropped CreateSubscription appends into the cell an older, longer value still reads *)
+Theorem shared_subscriptions_refuted :
+  let h := [[1; 2; 3]] in let s0 := GS 0 3 in
+  gs_read (fst (fold_left (gs_step 0 (fun n => n)) [GRemoveAt 0] (gs_clone false h s0))) s0 <> gs_read h s0 /\
+  gs_read (fst (fold_left (gs_step 0 (fun n => n)) [GRemoveAt 2; GAppend 9] (gs_clone false h s0))) s0 <> gs_read h s0 /\
+  gs_read (fst (fold_left (gs_step 0 (fun n => n)) [GSet 1 7] (gs_clone false h s0))) s0 <> gs_read h s0.
+Proof.
+  split; [exact shared_slice_remove_refuted|]. split; [exact shared_slice_append_refuted|exact shared_slice_set_refuted].
+Qed.
+Print Assumptions shared_subscriptions_refuted.
 
 (* fix 65eba12: Snapshot() handed out fsm.data itself; a rejected command restamped it *)
 Theorem snapshot_noclone_refuted :
